@@ -258,10 +258,15 @@ Print Assumptions C01_senc_large_fixed.
 Theorem C01_elng_unterminated_refuted : refutes w_elng_unterminated [(n_elng, RSizeBig); (n_elng, RRsv false 0)].
 Proof. exact elng_unterminated_refuted. Qed.
 Print Assumptions C01_elng_unterminated_refuted.
-(* an SLConfigDescriptor announcing 0 bytes is accepted (the configuration byte is read anyway) and written back with size 1 *)
-Theorem C01_esds_slconfig_size_refuted : refutes (ex_esds 0) [(n_esds, RGuard); (n_esds, RRsv false 3)].
-Proof. exact esds_slc0_refuted. Qed.
-Print Assumptions C01_esds_slconfig_size_refuted.
+(* finding C01-K77 (repaired by repo commit 89e24df): an SLConfigDescriptor announcing 0 bytes was accepted (the configuration
+   byte was read anyway) and written back with size 1; now it is refused, kept as UnknownData, and the input is reproduced *)
+Theorem C01_esds_slconfig_size_fixed : decode (ex_esds 0) = Ok (treeof (ex_esds 0), []) /\ raw_box false (treeof (ex_esds 0)) = Ok (ex_esds 0) /\
+  match treeof (ex_esds 0) with
+  | MLeaf _ (LEsds 0 0 1 1 0 _ [] _ (DDcd 1 64 21 0 128000 128000 [DDsi 1 [17; 144]] []) [] [6; 0; 2] false) _ => True
+  | _ => False
+  end.
+Proof. exact esds_slc0_fixed. Qed.
+Print Assumptions C01_esds_slconfig_size_fixed.
 Theorem C01_stsd_nobody_fixed : decode w_stsd_nobody = Err.
 Proof. exact stsd_nobody_fixed. Qed.
 Print Assumptions C01_stsd_nobody_fixed.
